@@ -708,6 +708,100 @@ fn deep_display(ctx: &mut Ctx, c: &DepthCase) -> Res {
     )
 }
 
+// ---------------------------------------------------------------- messages of an exact (large) encoded size
+
+/// a message over `tags` whose encoding is exactly `total` bytes, the value bytes spread by `shape`
+/// (0: all in the last value, 1: all in the first, 2: evenly, 3: all but 4 bytes in the first)
+#[derive(Debug, Clone, Serialize, Deserialize)]
+struct SizedCase {
+    tags: Vec<u8>,
+    total: u32,
+    shape: u8,
+}
+
+impl SizedCase {
+    fn msg(&self) -> Option<ApiMsg> {
+        let n = self.tags.len();
+        let header = if n == 0 { 4 } else { 8 * n };
+        let body = (self.total as usize).checked_sub(header)?;
+        if n == 0 {
+            return if body == 0 { Some(ApiMsg { fields: vec![] }) } else { None };
+        }
+        let words = body / 4;
+        let mut lens = vec![0usize; n];
+        match self.shape % 4 {
+            0 => lens[n - 1] = words,
+            1 => lens[0] = words,
+            2 => {
+                for (i, l) in lens.iter_mut().enumerate() {
+                    *l = words / n + usize::from(i < words % n);
+                }
+            }
+            _ => {
+                if n >= 2 && words >= 1 {
+                    lens[0] = words - 1;
+                    lens[n - 1] = 1;
+                } else {
+                    lens[0] = words;
+                }
+            }
+        }
+        let fields = self.tags.iter().zip(lens).enumerate().map(|(i, (t, w))| (*t, Hex((0..w * 4).map(|j| (j as u8).wrapping_mul(31).wrapping_add(i as u8 * 7 + 1)).collect()))).collect();
+        Some(ApiMsg { fields })
+    }
+}
+
+fn sized_cases(thorough: bool) -> Vec<SizedCase> {
+    let tagsets: Vec<Vec<u8>> = vec![vec![11], vec![2, 11], vec![0, 5, 17], vec![1, 2, 3, 4, 16], (0u8..18).collect()];
+    let mut totals: Vec<u32> = (65_400u32..=65_536).step_by(4).collect();
+    totals.extend([32_764, 32_768, 32_772, 16_384, 65_540, 65_544, 131_072, 131_076]);
+    if thorough {
+        totals.extend((65_000u32..65_400).step_by(4));
+        totals.extend([262_144, 1_048_576, 1_048_580]);
+    }
+    let mut out = vec![];
+    for tags in &tagsets {
+        for total in &totals {
+            for shape in 0..4u8 {
+                if tags.len() == 1 && shape > 0 {
+                    continue;
+                }
+                out.push(SizedCase { tags: tags.clone(), total: *total, shape });
+            }
+        }
+    }
+    out
+}
+
+fn sized_check(mode: Mode, ctx: &mut Ctx, c: &SizedCase) -> Res {
+    let m = match c.msg() {
+        Some(m) => m,
+        None => return Ok(()),
+    };
+    if mode == Mode::C05 {
+        api_roundtrip(ctx, &m)?;
+    }
+    // the decoder is specified for inputs up to 64 KiB
+    if c.total <= 65_536 {
+        let enc = m.to_ref().encode();
+        if enc.len() != c.total as usize {
+            return Err(viol("harness-sized", format!("built {} bytes for total {}", enc.len(), c.total)));
+        }
+        check(mode, ctx, &enc, "sized")?;
+        // the same message with its last offset pushed to / past the end
+        if m.fields.len() >= 2 {
+            let n = m.fields.len();
+            for off in [c.total - 8 * n as u32, c.total - 8 * n as u32 + 4, 65_536, 65_532] {
+                let mut x = enc.clone();
+                let p = 4 + 4 * (n - 2);
+                x[p..p + 4].copy_from_slice(&off.to_le_bytes());
+                check(mode, ctx, &x, "sized-last-offset")?;
+            }
+        }
+    }
+    Ok(())
+}
+
 // ---------------------------------------------------------------- drivers
 
 #[derive(Debug, Clone, Serialize, Deserialize)]
@@ -727,12 +821,14 @@ pub fn run(mode: Mode, ctx: &mut Ctx) -> Vec<Violation> {
         }));
         // occasionally very large messages (up to 64 KiB total)
         out.extend(run_prop(ctx, "api-large", t.pick(1_000, 10_000), 500, api_msg(4096), |ctx, c| {
-            let total: usize = c.fields.iter().map(|f| f.1.len()).sum();
-            if total > 65_000 {
-                return Ok(());
-            }
             api_roundtrip(ctx, c)
         }));
+    }
+
+    // messages whose encoding is exactly N bytes around 64 KiB (offsets near and beyond 16-bit range)
+    {
+        let cases = sized_cases(t == Tier::Thorough);
+        out.extend(run_enum(ctx, "sized-grid", cases.len() as u64, |i| cases[i as usize].clone(), |ctx, c| sized_check(mode, ctx, c)));
     }
 
     // (b) exhaustive word strings
@@ -816,6 +912,7 @@ pub fn run(mode: Mode, ctx: &mut Ctx) -> Vec<Violation> {
 
 pub fn replay(mode: Mode, ctx: &mut Ctx, sub: &str, case: &Value) -> Res {
     match sub {
+        "sized-grid" => replay_case::<SizedCase, _>(ctx, case, |ctx, c| sized_check(mode, ctx, c)),
         "api" | "api-large" => replay_case::<ApiMsg, _>(ctx, case, |ctx, c| api_roundtrip(ctx, c)),
         "api-sequences" => replay_case::<Vec<ApiOp>, _>(ctx, case, |ctx, c| api_sequence(ctx, c)),
         "exh-words" | "near-tags" | "random" | "count-arith" | "raw" => replay_case::<RawCase, _>(ctx, case, |ctx, c| check(mode, ctx, &c.bytes.0, "replay")),
